@@ -383,7 +383,7 @@ class C13(Check):
         for i, pr in enumerate(self.info['profiles']):
             for x in pr['props']:
                 if x['pattern'] not in cache:
-                    cache[x['pattern']] = relib.parse(x['pattern'], re.I)
+                    cache[x['pattern']] = c13_profiles.parse_pattern(x['pattern'], self.info.get('flags', re.I))
                 self.entries.append((i, pr['name'], x['name'], cache[x['pattern']]))
                 self.by_name.setdefault(x['name'], []).append(cache[x['pattern']])
         self.names = sorted(self.by_name)
